@@ -687,8 +687,8 @@ class FieldsJson(FieldValueBase):
     def _parse(cls, parsable):
         try:
             raw_values = json.loads(parsable.decode('ascii'), object_pairs_hook=collections.OrderedDict)
-        except ValueError as e:  # json.decoder.JSONDecodeError is derived from ValueError
-            six.raise_from(InvalidValue(six.ensure_text(bytes(parsable), 'ascii', 'replace'), cls, 'value'), e)
+        except (ValueError, RecursionError) as e:  # json.decoder.JSONDecodeError is derived from ValueError
+            six.raise_from(InvalidValue(six.ensure_text(bytes(parsable[:64]), 'ascii', 'replace'), cls, 'value'), e)
 
         if not isinstance(raw_values, dict):
             raise InvalidValue(six.ensure_text(bytes(parsable), 'ascii', 'replace'), cls, 'value')
